@@ -7,15 +7,18 @@
 package c08
 
 import (
+	"bufio"
 	"bytes"
 	"errors"
 	"fmt"
+	"io"
 	"net/netip"
 	"slices"
 	"strings"
 	"testing"
 
 	"github.com/AdguardTeam/golibs/hostsfile"
+	"github.com/AdguardTeam/golibs/netutil"
 
 	"verif/sim/kernel"
 )
@@ -61,8 +64,12 @@ func run(rc *kernel.RunCtx) {
 
 var (
 	addrPool = []string{"1.2.3.4", "::1", "fe80::1%eth0", "fe80::1%eth1", "10.0.0.1", "::ffff:1.2.3.4", "0.0.0.0"}
-	namePool = []string{"host", "Host", "HOST", "a.b", "A.b", "example.org", "x", "x.y.z", "пример.рф", "xn--e1afmkfd.xn--p1ai", "h-1"}
-	badNames = []string{"bad!name", "-lead", "a..b", ".", "under_score.", "toolonglabel" + strings.Repeat("x", 60)}
+	namePool = []string{"host", "Host", "HOST", "a.b", "A.b", "example.org", "x", "x.y.z", "пример.рф", "xn--e1afmkfd.xn--p1ai", "h-1",
+		"XN--E1AFMKFD.example", strings.Repeat("l", 63) + ".example", "a.b.c.d.e.f.g.h", "0start.example", "trail9.x1",
+		strings.Repeat("abcdefgh.", 28) + "a"} // 253 bytes
+	badNames = []string{"bad!name", "-lead", "a..b", ".", "under_score.", "toolonglabel" + strings.Repeat("x", 60),
+		"xn--0.example", "xn--zz", "a.xn--b", "trail-.example", "a.123", strings.Repeat("abcdefgh.", 28) + "ab", // 254 bytes
+		strings.Repeat("l", 64) + ".example", "host.", "sp ace"}
 	badAddrs = []string{"999.1.1.1", "1.2.3", "nothost", "1.2.3.4.5", ":::1", "fe80::1%"}
 	seps     = []string{" ", "\t", "  ", " \t "}
 )
@@ -178,6 +185,56 @@ func splitLines(text []byte) (lines [][]byte) {
 	}
 
 	return lines
+}
+
+// wellFormed is the reference definition of a well-formed line, written from
+// the hosts(5) grammar and the documentation of Record.UnmarshalText: what is
+// left after removing a comment and trimming spaces and tabs consists of at
+// least two fields separated by runs of spaces and tabs; the first one is an IP
+// address, all others are valid domain names.
+func wellFormed(line []byte) (addr netip.Addr, names []string, ok bool) {
+	if i := bytes.IndexByte(line, '#'); i >= 0 {
+		line = line[:i]
+	}
+	fields := strings.FieldsFunc(string(line), func(r rune) bool { return r == ' ' || r == '\t' })
+	if len(fields) < 2 {
+		return netip.Addr{}, nil, false
+	}
+	addr, err := netip.ParseAddr(fields[0])
+	if err != nil {
+		return netip.Addr{}, nil, false
+	}
+	for _, f := range fields[1:] {
+		if netutil.ValidateDomainName(f) != nil {
+			return netip.Addr{}, nil, false
+		}
+	}
+
+	return addr, fields[1:], true
+}
+
+// checkVerdicts compares Record.UnmarshalText's verdict on every line with
+// the reference definition.
+func checkVerdicts(rc *kernel.RunCtx, text []byte) bool {
+	for i, line := range splitLines(text) {
+		rec := &hostsfile.Record{}
+		err := rec.UnmarshalText(line)
+		addr, names, ok := wellFormed(line)
+		switch {
+		case ok != (err == nil):
+			rc.Fail("well-formedness", "Record.UnmarshalText", fmt.Sprintf(
+				"line %d %q: UnmarshalText returned %v, by the grammar the line is well formed: %v", i+1, line, err, ok))
+		case ok && (rec.Addr != addr || !slices.Equal(rec.Names, names)):
+			rc.Fail("well-formedness", "Record.UnmarshalText", fmt.Sprintf(
+				"line %d %q: UnmarshalText gives %s %q, by the grammar the record is %s %q", i+1, line, rec.Addr, rec.Names, addr, names))
+		default:
+			continue
+		}
+
+		return false
+	}
+
+	return true
 }
 
 func expect(text []byte, srcName string) (items []item) {
@@ -301,16 +358,38 @@ func runParse(c *ctx) {
 		sr.MaxChunk = max(sr.MaxChunk, 64<<10)
 		sr.ZeroReads = false
 	}
-	var src interface {
-		Read([]byte) (int, error)
-	} = sr
-	if named {
+	var src io.Reader = sr
+	srcKind := "sim"
+	switch {
+	case named:
 		src = namedReader{SimReader: sr, name: srcName}
+	case tp.Bool(1, 4):
+		// The simulated reader behind one of the standard library's readers,
+		// or (fault free) a standard in-memory reader: the concrete types
+		// sources have in practice.
+		switch k := tp.Choose(5); {
+		case k <= 1:
+			srcKind = "bufio"
+			src = bufio.NewReaderSize(sr, []int{16, 64, 4096}[tp.Choose(3)])
+		case k == 2 && !withErr:
+			srcKind = "bytes.Reader"
+			src = bytes.NewReader(text)
+		case k == 3 && !withErr:
+			srcKind = "strings.Reader"
+			src = strings.NewReader(string(text))
+		case k == 4 && !withErr:
+			srcKind = "bytes.Buffer"
+			src = bytes.NewBuffer(bytes.Clone(text))
+		}
+		rc.Stats.Probe("source-type-" + srcKind)
 	}
-	c.logf("parse: %d lines %q named=%v handleSet=%v withErr=%v(at %d) buf=%d chunk=%d", nLines, text, named, useHandle, withErr, sr.ErrAt, cap(buf), sr.MaxChunk)
+	c.logf("parse: %d lines %q named=%v handleSet=%v withErr=%v(at %d) buf=%d chunk=%d src=%s", nLines, text, named, useHandle, withErr, sr.ErrAt, cap(buf), sr.MaxChunk, srcKind)
 	c.sig = kernel.HashBytes(c.sig, text)
 	c.sig = kernel.HashBytes(c.sig, []byte(fmt.Sprint(named, useHandle, withErr, cap(buf))))
 
+	if !large && !checkVerdicts(rc, text) {
+		return
+	}
 	want := expect(text, srcName)
 
 	var got []item
@@ -333,7 +412,7 @@ func runParse(c *ctx) {
 			dataReads++
 		}
 	}
-	c.nonTriv = nLines >= 1 && dataReads >= 2
+	c.nonTriv = nLines >= 1 && (dataReads >= 2 || (srcKind != "sim" && srcKind != "bufio"))
 	c.logf("reader calls: %d (%d with data); Parse error: %v", len(sr.Calls), dataReads, err)
 	for _, it := range got {
 		c.logf("  got %s", it)
@@ -505,6 +584,13 @@ var (
 	stNames = []string{"host", "Host", "HOST", "a.b", "A.B", "x", "X", "long.example.org", "почта.lan", "ПОЧТА.lan", "äöü.lan", "ÄÖÜ.lan"}
 )
 
+// freeNames are names that no hosts file can contain but a record added
+// directly can.
+var freeNames = []string{
+	strings.Repeat("a", 300), strings.Repeat("a", 253), strings.Repeat("a", 254), strings.Repeat("long-label.", 30) + "example",
+	"with space", "under_score", "Mixed_Case.And.Dot.", "tab\tname", "host", "#hash", "1.2.3.4",
+}
+
 // widePools returns address and name pools that are large enough for one name
 // to collect dozens of addresses and one address dozens of names.
 func widePools() (addrs, names []string) {
@@ -525,6 +611,12 @@ func runStorage(c *ctx) {
 		stAddrs, stNames = widePools()
 		maxOps = 90
 		rc.Stats.Probe("wide-storage-history")
+	}
+	freeForm := maxOps == 14 && tp.Bool(1, 6)
+	if freeForm {
+		// "Any sequence of records": Add does not validate names.
+		stNames = freeNames
+		rc.Stats.Probe("free-form-names")
 	}
 	s, err := hostsfile.NewDefaultStorage()
 	if err != nil {
@@ -609,6 +701,10 @@ func runStorage(c *ctx) {
 	if s.Equal(other) || other.Equal(s) {
 		rc.Fail("equal", "DefaultStorage.Equal", "storages that differ in one name are reported Equal")
 
+		return
+	}
+
+	if freeForm {
 		return
 	}
 
